@@ -26,6 +26,17 @@ THEOREMS = [f'Gnpy.Slots.{t}' for t in (
     'determineSlotNumbers_pos', 'determineSlotNumbers_fixed', 'nmLoop_spec', 'aggregate_spec', 'restoreOrder_perm',
     'applyPath_spec', 'restoreOrder_positional')] + ['Gnpy.Py.sorted_pairwise', 'Gnpy.Py.sorted_perm']
 PARTIAL = []
+MANIFEST = {
+    'text': '33 Lean 4 theorems over the executable model of spectrum_assignment.py: run_spec / history_no_overlap / '
+            'occupancy_is_union by induction over ANY request list on any well-formed OMS set; step_blocked_unchanged, '
+            'step_accept_free, step_marks_exactly, same_on_all_oms, enough_slots, first_fit_lowest (+ last_fit_highest), '
+            'user_fixed_honoured (positional, through order_slots/restore_order), reserved_check; create_wf / '
+            'stateWF_of_create show the hypotheses are what build_oms_list produces. The model is tied to the code after '
+            'EVERY pth_assign_spectrum call (all bitmaps, N, M, blocking reason, exact) and a ledger-based monitor runs '
+            'on the implementation.',
+    'note': 'No partial statement. Quantifier domain: N any integer or null, M >= 1 or null (RFC 7698); guard-band/first-fit '
+            'statements for OMS sets as build_oms_list produces them (one range, guard band a multiple of 6.25 GHz). '
+            'Thorough tier adds the complete enumeration of 19104 histories of length <= 3 on 2 OMS x 17 slots.'}
 RULE = ('one PRNG; (a) histories (74 %): 1-8 OMS over one frequency range (20-128 slots quick, up to 768 thorough; ranges '
         'containing the 193.1 THz anchor, off-grid band edges, guard bands 0-50 GHz), per-OMS unusable zones (left/right/'
         'gap) and pre-occupation, 1-12 (thorough: up to 60) requests with routes over 1-5 OMS, with or without a reverse '
